@@ -938,8 +938,189 @@ def printer_contracts():
     return [Printer(n) for n in c16b.printer_names()]
 
 
+# ---- Topology._locate: bookkeeping of the shared ielems/points ---------------------------------------------------------------------
+
+class Fl(Sym):
+    """a float / float array: arithmetic is opaque, every comparison may come out either way"""
+
+    def binop(self, ctx, op, other, reflected):
+        return Fl()
+
+    def unop(self, ctx, op):
+        return Fl()
+
+    def compare(self, ctx, op, other, reflected):
+        return SBool(ctx.bool('cmp', report=False))
+
+    def getitem(self, ctx, idx):
+        return Fl()
+
+    def havoc(self, ctx, name):
+        return Fl()
+
+    def truth(self, ctx):
+        raise Unsupported('truth of a float array')
+
+
+class SharedArr(Sym):
+    """parallel.shempty(...): every store is recorded; other processes may have stored into it too"""
+
+    def __init__(self, S, name):
+        self.S, self.name = S, name
+        self.writes = []
+
+    def setitem(self, ctx, idx, value):
+        self.writes.append((idx, value))
+
+    def contains(self, ctx, item):
+        if not (isinstance(item, int) and item == -1):
+            raise Unsupported('membership test on the shared array for something other than -1')
+        mine = [zint(v) == -1 for _, v in self.writes if isinstance(v, (int, SInt))]
+        return SBool(z3.Or(self.S.others_missing, *mine))
+
+    def compare(self, ctx, op, other, reflected):
+        return Fl()
+
+    def getitem(self, ctx, idx):
+        self.S.reads.append((self.name, idx))
+        return Fl()
+
+    def truth(self, ctx):
+        raise Unsupported('truth of an array')
+
+
+class Locate(InProc, Contract):
+    prop = PROP
+    fn = 'topology:Topology._locate'
+
+    def __init__(self, nclaimed, nelems):
+        from pyvc.interp import Loop
+        self.nclaimed, self.nelems = nclaimed, nelems
+        self.label = '%d-points-claimed|%d-elements' % (nclaimed, nelems)
+        self.bounded = 'this process claims %d point indices from the shared range; the topology has %d elements (candidate loop unrolled); maxdist is None' % (nclaimed, nelems)
+        self.loops = {0: Loop(lambda cx, env: z3.BoolVal(True), match='while ex > tol', label='newton')}
+        self.expect_return = True
+
+    def setup(self, cx):
+        concrete_format_hooks(cx)
+        npoints = cx.int('npoints')
+        ks = [cx.int('claimed%d' % i) for i in range(self.nclaimed)]
+        for a, b in zip([-1] + ks, ks):  # parallel.range.__next__ (contracts/C16.py) hands out increasing indices below stop
+            cx.assume(z3.And(b > a, b < npoints))
+        skip, others = cx.bool('skip_missing'), cx.bool('another_process_marked_a_point_missing')
+        ndims, gdims, maxiter = cx.int('ndims'), cx.int('geom_dims'), cx.int('maxiter')
+        cx.assume(z3.And(ndims >= 1, gdims >= ndims))  # checked by Topology.locate before it calls _locate
+        S = State(npoints=npoints, ks=ks, skip=skip, others_missing=others, reads=[], handed=[], skipped=[], iterations=[], events=[])
+        S.ielems, S.points = SharedArr(S, 'ielems'), SharedArr(S, 'points')
+        allocs = []
+
+        def shempty(ctx, shape, dtype=None):
+            a = (S.ielems, S.points)[len(allocs)] if len(allocs) < 2 else _unsupported('a third shared array')
+            allocs.append((a, shape))
+            return a
+
+        class Claims:
+            """the shared range seen from this process: the indices it claims, one per next(); lazily consumed"""
+
+            def __init__(s, nested=False):
+                s.nested = nested
+
+            def sym_iterate(s, ctx):
+                # the first `for ... in ipoints` is the loop over the points; a later one (inside it) consumes what is left
+                S.iterations.append(len(S.iterations))
+                return Claims(nested=len(S.iterations) > 1)
+
+            def __iter__(s):
+                return s
+
+            def __next__(s):
+                n = len(S.handed) + len(S.skipped)
+                if n >= len(S.ks):
+                    raise StopIteration
+                k = SInt(S.ks[n])
+                (S.skipped if s.nested else S.handed).append(k)
+                S.events.append(('skip' if s.nested else 'claim', n))
+                return k
+
+        class RangeCM(Sym):
+            def sym_enter(s, ctx):
+                S.events.append(('enter',))
+                return Claims()
+
+            def sym_exit(s, ctx):
+                S.events.append(('exit',))
+
+        def ctxrange(ctx, name, n):
+            S.range_len = n
+            return RangeCM()
+
+        def solve(ctx, A, b):
+            if ctx.branch(ctx.bool('singular', report=False)):
+                raise PyRaise('LinAlgError')
+            return Fl()
+        refs = [SObj('Reference', attrs=dict(centroid=Fl()), methods=dict(inside=lambda ctx, s, p, tol: SBool(ctx.bool('inside', report=False)))) for _ in range(self.nelems)]
+        centroids = SObj('ndarray', methods={'__len__': lambda ctx, s: self.nelems})
+        centroids.length = lambda ctx: self.nelems
+        centroids.binop = lambda ctx, op, other, reflected: Fl()
+        sample = SObj('Sample', methods=dict(eval=lambda ctx, s, *a, **k: centroids))
+        me = SObj('Topology', attrs=dict(ndims=SInt(ndims), references=refs), methods=dict(sample=lambda ctx, s, *a: sample, _lower_args=lambda ctx, s, *a: SOpaque('lower-args')))
+        me.length = lambda ctx: self.nelems
+        geom = SObj('Array', attrs=dict(shape=(SInt(gdims),)), methods=dict(lower=lambda ctx, s, a: SOpaque('egeom')))
+        coords = SObj('ndarray', methods={})
+        coords.length = lambda ctx: SInt(npoints)
+        coords.getitem = lambda ctx, idx: Fl()
+        S.arguments = {}
+        xJ = lambda ctx, args: (Fl(), Fl())
+        numpy_ = NS(linalg=NS(solve=solve, lstsq=lambda ctx, A, b, rcond=None: (solve(ctx, A, b),), norm=lambda ctx, x, axis=None: Fl(), LinAlgError=ClassRef('LinAlgError')),
+                    argsort=lambda ctx, d: list(range(self.nelems)), array=lambda ctx, x: Fl(), inf=Fl())
+        S.globals = {'parallel': NS(shempty=shempty, ctxrange=ctxrange), 'numpy': numpy_, 'max': lambda ctx, *a: Fl(),
+                     'evaluable': NS(InRange=lambda ctx, *a: SOpaque('InRange'), Argument=lambda ctx, *a, **k: SOpaque('Argument'), constant=lambda ctx, v: SOpaque('constant'),
+                                     compile=lambda ctx, fs, stats=None: xJ, derivative=lambda ctx, f, v: SOpaque('derivative'))}
+        S.allocs = allocs
+        S.args = (me, geom, coords, Fl(), Fl(), S.arguments, SInt(maxiter), None, SBool(skip))
+        return S
+
+    def bookkeeping(self, S):
+        """each claimed index written exactly once into ielems, in order; coordinates stored exactly for the located ones"""
+        B = z3.BoolVal
+        wi, wp = S.ielems.writes, S.points.writes
+        n = len(S.handed)
+        once = len(wi) == n and all(isinstance(i, SInt) and z3.eq(i.v, k.v) for (i, _), k in zip(wi, S.handed))
+        values = once and all((isinstance(v, int) and not isinstance(v, bool) and (v == -1 or 0 <= v < self.nelems)) for _, v in wi)
+        located = [k for (i, v), k in zip(wi, S.handed) if v != -1] if values else None
+        coords = values and len(wp) == len(located) and all(isinstance(i, SInt) and z3.eq(i.v, k.v) for (i, _), k in zip(wp, located))
+        missing = values and any(v == -1 for _, v in wi)
+        shapes = len(S.allocs) == 2 and getattr(S, 'range_len', None) is not None
+        return once, values, coords, missing, shapes
+
+    def ensures(self, cx, S, result):
+        B = z3.BoolVal
+        once, values, coords, missing, shapes = self.bookkeeping(S)
+        return [('every-claimed-point-is-written-exactly-once-and-nothing-else', B(bool(once))),
+                ('stored-element-is-a-candidate-or-the-missing-mark', B(bool(values))),
+                ('coordinates-stored-exactly-for-the-located-points', B(bool(coords))),
+                ('returns-normally-only-if-no-point-is-missing-or-skip_missing', z3.Implies(z3.Or(B(bool(missing)), S.others_missing), S.skip)),
+                ('all-claimed-points-were-processed', B(len(S.handed) == len(S.ks) and not S.skipped)),
+                ('shared-arrays-and-range-set-up-before-the-loop', B(bool(shapes) and S.events[:1] == [('enter',)] and S.events[-1:] == [('exit',)]))]
+
+    def raises(self, cx, S, e):
+        B = z3.BoolVal
+        if e.exc.split(':')[0] == 'LocateError':
+            once, values, coords, missing, shapes = self.bookkeeping(S)
+            # points skipped by the fast-forward after a failure are never written: fine, since the call raises
+            return z3.And(z3.Not(S.skip), z3.Or(B(bool(missing)), S.others_missing), B(bool(once and values and coords)), B(S.events[-1:] == [('exit',)]), B(not S.skipped or bool(missing)))
+        return False
+
+    def replay(self, ob):
+        return _native('run_locate(%r)' % ob.clause)
+
+
+def locate_contracts():
+    return [Locate(1, 1), Locate(1, 2), Locate(2, 1)]
+
+
 def contracts():
-    return alloc_contracts() + emit_contracts() + loopgen_contracts() + printer_contracts()
+    return alloc_contracts() + emit_contracts() + loopgen_contracts() + printer_contracts() + locate_contracts()
 
 
 def extra_obligations(tier, seed):
